@@ -117,6 +117,9 @@ type extractor struct {
 	tmplLits map[*ast.FuncLit]token.Pos
 	instLits map[*ast.FuncLit]bool
 	valCalls []*pendingCall
+
+	unknownRoutes int
+	tableRows     int
 }
 
 type funcInfo struct {
@@ -136,6 +139,7 @@ type source struct {
 }
 
 type pendingCall struct {
+	site ast.Node
 	call *ast.CallExpr
 	pkg  *packages.Package
 	env  *env
@@ -143,8 +147,9 @@ type pendingCall struct {
 
 // binding is the value of an identifier during symbolic execution.
 type binding struct {
-	str  *string  // constant string
-	expr ast.Expr // or an expression, evaluated in env
+	elem *ast.CompositeLit // a struct literal: one row of a registration table
+	str  *string           // constant string
+	expr ast.Expr          // or an expression, evaluated in env
 	env  *env
 	pkg  *packages.Package
 }
@@ -218,6 +223,57 @@ func exprString(fset *token.FileSet, e ast.Expr) string {
 	return types.ExprString(e)
 }
 
+// elemField returns the expression a struct-literal row gives to field name, or
+// found=false with the field's type when the row leaves it out (zero value).
+func (x *extractor) elemField(b *binding, name string) (e ast.Expr, found bool, ft types.Type) {
+	t := b.pkg.TypesInfo.TypeOf(b.elem)
+	if t == nil {
+		return nil, false, nil
+	}
+	st, ok := t.Underlying().(*types.Struct)
+	if !ok {
+		return nil, false, nil
+	}
+	idx := -1
+	for i := 0; i < st.NumFields(); i++ {
+		if st.Field(i).Name() == name {
+			idx, ft = i, st.Field(i).Type()
+		}
+	}
+	if idx < 0 {
+		return nil, false, nil
+	}
+	for i, el := range b.elem.Elts {
+		if kv, isKV := el.(*ast.KeyValueExpr); isKV {
+			if k, isID := kv.Key.(*ast.Ident); isID && k.Name == name {
+				return kv.Value, true, ft
+			}
+		} else if i == idx {
+			return el, true, ft
+		}
+	}
+
+	return nil, false, ft
+}
+
+// rowSelector resolves `r.field` where r is bound to a table row.
+func (x *extractor) rowSelector(pkg *packages.Package, e ast.Expr, en *env) (b *binding, name string, ok bool) {
+	sel, isSel := unparen(e).(*ast.SelectorExpr)
+	if !isSel {
+		return nil, "", false
+	}
+	id, isID := unparen(sel.X).(*ast.Ident)
+	if !isID {
+		return nil, "", false
+	}
+	b = en.get(pkg.TypesInfo.Uses[id])
+	if b == nil || b.elem == nil {
+		return nil, "", false
+	}
+
+	return b, sel.Sel.Name, true
+}
+
 // constString evaluates e to a constant string, through env bindings.
 func (x *extractor) constString(pkg *packages.Package, e ast.Expr, en *env) (string, bool) {
 	e = unparen(e)
@@ -232,6 +288,16 @@ func (x *extractor) constString(pkg *packages.Package, e ast.Expr, en *env) (str
 			if b.expr != nil {
 				return x.constString(b.pkg, b.expr, b.env)
 			}
+		}
+	}
+	if b, name, ok := x.rowSelector(pkg, e, en); ok {
+		fe, found, ft := x.elemField(b, name)
+		if found {
+			return x.constString(b.pkg, fe, b.env)
+		}
+		if bt, isBasic := ft.(*types.Basic); isBasic && bt.Info()&types.IsString != 0 {
+			// A row that leaves the field out has the zero value.
+			return "", true
 		}
 	}
 
@@ -253,6 +319,15 @@ func (x *extractor) normalise(pkg *packages.Package, e ast.Expr, en *env, depth 
 
 		return nil, v.Name
 	case *ast.SelectorExpr:
+		if b, name, ok := x.rowSelector(pkg, v, en); ok {
+			fe, found, _ := x.elemField(b, name)
+			if !found {
+				x.fail(v.Pos(), "table row without a %s: nil handler", name)
+			}
+
+			return x.normalise(b.pkg, fe, b.env, depth+1)
+		}
+
 		return nil, exprString(x.fset, v)
 	case *ast.FuncLit:
 		f, l := x.pos(v.Pos())
@@ -383,7 +458,7 @@ func (x *extractor) isAdminMux(info *types.Info, recv ast.Expr) bool {
 }
 
 // emitMuxReg records one registration on the admin mux.
-func (x *extractor) emitMuxReg(pkg *packages.Package, call *ast.CallExpr, en *env, declared string, site *ast.CallExpr, sitePkg *packages.Package, via string) {
+func (x *extractor) emitMuxReg(pkg *packages.Package, call *ast.CallExpr, en *env, declared string, site ast.Node, sitePkg *packages.Package, via string) {
 	if len(call.Args) != 2 {
 		x.fail(call.Pos(), "mux registration with %d arguments", len(call.Args))
 	}
@@ -420,7 +495,7 @@ func (x *extractor) emitMuxReg(pkg *packages.Package, call *ast.CallExpr, en *en
 }
 
 // instantiate executes registrar src for the constant arguments of call.
-func (x *extractor) instantiate(src *source, callPkg *packages.Package, call *ast.CallExpr, en *env, site *ast.CallExpr, sitePkg *packages.Package, depth int) {
+func (x *extractor) instantiate(src *source, callPkg *packages.Package, call *ast.CallExpr, en *env, site ast.Node, sitePkg *packages.Package, depth int) {
 	if depth > 8 {
 		x.fail(call.Pos(), "registrar calls nest too deep")
 	}
@@ -431,13 +506,30 @@ func (x *extractor) instantiate(src *source, callPkg *packages.Package, call *as
 	if len(params) != 3 || len(call.Args) != 3 {
 		x.fail(call.Pos(), "registrar %s: expected (method, url, handler)", src.name)
 	}
-	method, ok := x.constString(callPkg, call.Args[0], en)
-	if !ok {
-		x.fail(call.Args[0].Pos(), "method argument is not a constant string: %s", exprString(x.fset, call.Args[0]))
-	}
-	url, ok := x.constString(callPkg, call.Args[1], en)
-	if !ok {
-		x.fail(call.Args[1].Pos(), "url argument is not a constant string: %s", exprString(x.fset, call.Args[1]))
+	method, okM := x.constString(callPkg, call.Args[0], en)
+	url, okU := x.constString(callPkg, call.Args[1], en)
+	if !okM || !okU {
+		// Not a constant (and not a row of a literal table): the route exists but
+		// what guards it is unknown.  It is emitted with method "?" and no
+		// wrapper, so that the per-route obligation fails for it by name.
+		f, l := x.pos(site.Pos())
+		if !okU {
+			url = fmt.Sprintf("?%s:%d", f, l)
+		}
+		x.routes = append(x.routes, route{
+			Pattern: url, Declared: "?", Chain: []wrapper{}, Handler: exprString(x.fset, call.Args[2]),
+			Pkg: strings.TrimPrefix(sitePkg.PkgPath, modPath+"/"), File: f, Line: l,
+			Via: src.name + " (non-constant arguments)", RegFile: f, RegLine: l,
+		})
+		x.unknownRoutes++
+		if src.fn != nil {
+			x.instFns[src.fn] = true
+		}
+		if src.lit != nil {
+			x.instLits[src.lit] = true
+		}
+
+		return
 	}
 	ne := &env{vars: map[types.Object]*binding{}}
 	if params[0] != nil {
@@ -460,7 +552,7 @@ func (x *extractor) instantiate(src *source, callPkg *packages.Package, call *as
 
 // execBlock runs the statements of a registrar; it reports whether a return
 // statement was reached.
-func (x *extractor) execBlock(src *source, stmts []ast.Stmt, en *env, declared string, site *ast.CallExpr, sitePkg *packages.Package, depth int) (returned bool) {
+func (x *extractor) execBlock(src *source, stmts []ast.Stmt, en *env, declared string, site ast.Node, sitePkg *packages.Package, depth int) (returned bool) {
 	info := src.pkg.TypesInfo
 	for _, st := range stmts {
 		switch s := st.(type) {
@@ -548,7 +640,7 @@ func (x *extractor) evalCond(pkg *packages.Package, c ast.Expr, en *env) bool {
 }
 
 // regCall handles a call whose callee has the RegisterFunc signature.
-func (x *extractor) regCall(pkg *packages.Package, call *ast.CallExpr, en *env, site *ast.CallExpr, sitePkg *packages.Package, depth int) {
+func (x *extractor) regCall(pkg *packages.Package, call *ast.CallExpr, en *env, site ast.Node, sitePkg *packages.Package, depth int) {
 	obj, _ := calleeObj(pkg.TypesInfo, call.Fun)
 	if fn, ok := obj.(*types.Func); ok {
 		fi := x.decls[fn]
@@ -565,7 +657,7 @@ func (x *extractor) regCall(pkg *packages.Package, call *ast.CallExpr, en *env, 
 	}
 	// A value of the callback type: every function that flows into such a
 	// location may be the callee.  Resolved after all flows are known.
-	x.valCalls = append(x.valCalls, &pendingCall{call: call, pkg: pkg, env: en})
+	x.valCalls = append(x.valCalls, &pendingCall{site: site, call: call, pkg: pkg, env: en})
 }
 
 // addFlow classifies an expression flowing into a RegisterFunc location.
@@ -640,6 +732,164 @@ func (x *extractor) addFlow(pkg *packages.Package, e ast.Expr, into string) {
 		return
 	}
 	x.fail(e.Pos(), "cannot classify the value %s flowing into a RegisterFunc location", fl.Expr)
+}
+
+// rootIdent returns the identifier an assignable expression is rooted at.
+func rootIdent(e ast.Expr) *ast.Ident {
+	for {
+		switch v := unparen(e).(type) {
+		case *ast.Ident:
+			return v
+		case *ast.SelectorExpr:
+			e = v.X
+		case *ast.IndexExpr:
+			e = v.X
+		case *ast.StarExpr:
+			e = v.X
+		default:
+			return nil
+		}
+	}
+}
+
+// tableLiteral finds the composite literal a table variable is defined by, if
+// it is defined once and never assigned to (nor its elements) afterwards.
+func (x *extractor) tableLiteral(pkg *packages.Package, obj types.Object, scope []ast.Node) *ast.CompositeLit {
+	info := pkg.TypesInfo
+	var lit *ast.CompositeLit
+	defs, writes := 0, 0
+	for _, root := range scope {
+		ast.Inspect(root, func(n ast.Node) bool {
+			switch v := n.(type) {
+			case *ast.AssignStmt:
+				for i, lhs := range v.Lhs {
+					id := rootIdent(lhs)
+					if id == nil {
+						continue
+					}
+					o := info.Defs[id]
+					if o == nil {
+						o = info.Uses[id]
+					}
+					if o != obj {
+						continue
+					}
+					if _, plain := unparen(lhs).(*ast.Ident); plain && info.Defs[id] == obj && len(v.Lhs) == len(v.Rhs) {
+						defs++
+						lit, _ = unparen(v.Rhs[i]).(*ast.CompositeLit)
+					} else {
+						writes++
+					}
+				}
+			case *ast.ValueSpec:
+				for i, name := range v.Names {
+					if info.Defs[name] == obj {
+						defs++
+						if i < len(v.Values) {
+							lit, _ = unparen(v.Values[i]).(*ast.CompositeLit)
+						}
+					}
+				}
+			case *ast.IncDecStmt:
+				if id := rootIdent(v.X); id != nil && info.Uses[id] == obj {
+					writes++
+				}
+			case *ast.UnaryExpr:
+				if v.Op == token.AND {
+					if id := rootIdent(v.X); id != nil && info.Uses[id] == obj {
+						writes++
+					}
+				}
+			}
+
+			return true
+		})
+	}
+	if defs != 1 || writes != 0 {
+		return nil
+	}
+
+	return lit
+}
+
+// tableEnvs recognises a registration call inside `for k, v := range T`, where T
+// is a literal table (a composite literal, or a variable defined once by one
+// and never written again) of struct rows: it returns one environment per row.
+func (x *extractor) tableEnvs(pkg *packages.Package, call *ast.CallExpr, stack []ast.Node) (envs []*env, rows []ast.Node) {
+	info := pkg.TypesInfo
+	var rng *ast.RangeStmt
+	var fnBody ast.Node
+	for i := len(stack) - 1; i >= 0 && fnBody == nil; i-- {
+		switch v := stack[i].(type) {
+		case *ast.RangeStmt:
+			if rng == nil {
+				rng = v
+			}
+		case *ast.FuncDecl:
+			fnBody = v
+		case *ast.FuncLit:
+			fnBody = v
+		}
+	}
+	if rng == nil || fnBody == nil {
+		return nil, nil
+	}
+	var lit *ast.CompositeLit
+	switch t := unparen(rng.X).(type) {
+	case *ast.CompositeLit:
+		lit = t
+	case *ast.Ident:
+		obj := info.Uses[t]
+		if obj == nil {
+			return nil, nil
+		}
+		scope := []ast.Node{fnBody}
+		if obj.Parent() == pkg.Types.Scope() {
+			scope = nil
+			for _, f := range pkg.Syntax {
+				scope = append(scope, f)
+			}
+		}
+		lit = x.tableLiteral(pkg, obj, scope)
+	}
+	if lit == nil {
+		return nil, nil
+	}
+	var keyObj, valObj types.Object
+	if id, ok := rng.Key.(*ast.Ident); ok && id.Name != "_" {
+		keyObj = info.Defs[id]
+	}
+	if id, ok := rng.Value.(*ast.Ident); ok && id.Name != "_" {
+		valObj = info.Defs[id]
+	}
+	_, isMap := info.TypeOf(lit).Underlying().(*types.Map)
+	for _, el := range lit.Elts {
+		var keyExpr ast.Expr
+		if kv, ok := el.(*ast.KeyValueExpr); ok {
+			keyExpr, el = kv.Key, kv.Value
+		}
+		if u, ok := unparen(el).(*ast.UnaryExpr); ok && u.Op == token.AND {
+			el = u.X
+		}
+		row, ok := unparen(el).(*ast.CompositeLit)
+		if !ok {
+			return nil, nil
+		}
+		if _, isStruct := info.TypeOf(row).Underlying().(*types.Struct); !isStruct {
+			return nil, nil
+		}
+		en := &env{vars: map[types.Object]*binding{}}
+		if valObj != nil {
+			en.vars[valObj] = &binding{elem: row, pkg: pkg}
+		}
+		if keyObj != nil && isMap && keyExpr != nil {
+			en.vars[keyObj] = &binding{expr: keyExpr, pkg: pkg}
+		}
+		envs = append(envs, en)
+		rows = append(rows, row)
+	}
+
+	return envs, rows
 }
 
 // walkFile visits one file of a program package.
@@ -725,7 +975,15 @@ func (x *extractor) walkFile(pkg *packages.Package, file *ast.File, inProgram bo
 					x.fail(v.Pos(), "non-constant pattern registered outside any function")
 				}
 			} else if x.isRegSig(info.TypeOf(v.Fun)) {
-				x.regCall(pkg, v, nil, v, pkg, 0)
+				if envs, rows := x.tableEnvs(pkg, v, stack); envs != nil {
+					// for _, r := range <literal table> { register(r.method, r.path, r.handler) }
+					for i, en := range envs {
+						x.tableRows++
+						x.regCall(pkg, v, en, rows[i], pkg, 0)
+					}
+				} else {
+					x.regCall(pkg, v, nil, v, pkg, 0)
+				}
 			}
 			// arguments flowing into parameters of the callback type
 			if sig, ok := info.TypeOf(v.Fun).(*types.Signature); ok {
@@ -887,6 +1145,228 @@ func (x *extractor) classifyMuxUse(pkg *packages.Package, id *ast.Ident, stack [
 	x.fail(id.Pos(), "unsupported use of the admin mux")
 }
 
+// authFact is one fact about how globalContext.auth gets its value.
+type authFact struct {
+	Kind string `json:"kind"` // assignCheckedFatal | nilAfterWebClose | returnNilWithError | returnCheckedValue | bad
+	Why  string `json:"why,omitempty"`
+	File string `json:"file"`
+	Line int    `json:"line"`
+}
+
+// nonNilError reports whether e is an error value that cannot be nil: a
+// conversion of a constant string to an error type, or fmt.Errorf / errors.New.
+func (x *extractor) nonNilError(pkg *packages.Package, e ast.Expr) bool {
+	call, ok := unparen(e).(*ast.CallExpr)
+	if !ok {
+		return false
+	}
+	info := pkg.TypesInfo
+	if tv, isT := info.Types[call.Fun]; isT && tv.IsType() && len(call.Args) == 1 {
+		if av, hasV := info.Types[call.Args[0]]; hasV && av.Value != nil && av.Value.Kind() == constant.String {
+			_, isPtr := tv.Type.Underlying().(*types.Pointer)
+			_, isIface := tv.Type.Underlying().(*types.Interface)
+
+			return !isPtr && !isIface
+		}
+
+		return false
+	}
+	obj, _ := calleeObj(info, call.Fun)
+	fn, isFn := obj.(*types.Func)
+	if !isFn {
+		return false
+	}
+	switch fn.FullName() {
+	case "fmt.Errorf", "errors.New", "github.com/AdguardTeam/golibs/errors.New":
+		return true
+	}
+
+	return false
+}
+
+// authFacts collects every place that decides whether globalContext.auth is nil
+// while requests are served: the assignments to the field, and the returns of
+// the function the checked assignment calls (initUsers).
+func (x *extractor) authFacts() (facts []authFact) {
+	home := x.pkgs[homePath]
+	info := home.TypesInfo
+	var authFld *types.Var
+	if hc := home.Types.Scope().Lookup("homeContext"); hc != nil {
+		if st, ok := hc.Type().Underlying().(*types.Struct); ok {
+			for i := 0; i < st.NumFields(); i++ {
+				if st.Field(i).Name() == "auth" {
+					authFld = st.Field(i)
+				}
+			}
+		}
+	}
+	if authFld == nil {
+		fmt.Fprintln(os.Stderr, "extract c11: field homeContext.auth not found (update the extractor)")
+		os.Exit(3)
+	}
+	add := func(kind, why string, p token.Pos) {
+		f, l := x.pos(p)
+		facts = append(facts, authFact{Kind: kind, Why: why, File: f, Line: l})
+	}
+	isAuthField := func(e ast.Expr) bool {
+		sel, ok := unparen(e).(*ast.SelectorExpr)
+		if !ok {
+			return false
+		}
+		s := info.Selections[sel]
+
+		return s != nil && s.Obj() == authFld
+	}
+	initFns := map[*types.Func]bool{}
+	for _, file := range home.Syntax {
+		for _, d := range file.Decls {
+			fd, ok := d.(*ast.FuncDecl)
+			if !ok || fd.Body == nil {
+				continue
+			}
+			// every block, to see the statement after an assignment
+			ast.Inspect(fd.Body, func(n ast.Node) bool {
+				blk, isBlk := n.(*ast.BlockStmt)
+				if !isBlk {
+					return true
+				}
+				for i, st := range blk.List {
+					as, isAs := st.(*ast.AssignStmt)
+					if !isAs {
+						continue
+					}
+					for li, lhs := range as.Lhs {
+						if !isAuthField(lhs) {
+							continue
+						}
+						// globalContext.auth = nil
+						if len(as.Lhs) == len(as.Rhs) {
+							if tv, has := info.Types[as.Rhs[li]]; has && tv.IsNil() {
+								closed := false
+								ast.Inspect(fd.Body, func(m ast.Node) bool {
+									c, isCall := m.(*ast.CallExpr)
+									if !isCall || c.Pos() > as.Pos() {
+										return true
+									}
+									if o, _ := calleeObj(info, c.Fun); o != nil {
+										if fn, isFn := o.(*types.Func); isFn && fn.FullName() == "(*"+homePath+".webAPI).close" {
+											closed = true
+										}
+									}
+
+									return true
+								})
+								if closed {
+									add("nilAfterWebClose", "", as.Pos())
+								} else {
+									add("bad", "globalContext.auth = nil while the web server may be serving", as.Pos())
+								}
+
+								continue
+							}
+						}
+						// globalContext.auth, err = f(); fatalOnError(err)
+						if len(as.Lhs) == 2 && len(as.Rhs) == 1 && li == 0 {
+							call, isCall := unparen(as.Rhs[0]).(*ast.CallExpr)
+							errID, isID := as.Lhs[1].(*ast.Ident)
+							if isCall && isID && i+1 < len(blk.List) {
+								if es, isES := blk.List[i+1].(*ast.ExprStmt); isES {
+									if c2, isC2 := es.X.(*ast.CallExpr); isC2 && len(c2.Args) == 1 {
+										o, _ := calleeObj(info, c2.Fun)
+										fn, isFn := o.(*types.Func)
+										argID, isArgID := unparen(c2.Args[0]).(*ast.Ident)
+										if isFn && fn.FullName() == homePath+".fatalOnError" && isArgID &&
+											info.ObjectOf(argID) == info.ObjectOf(errID) {
+											if co, _ := calleeObj(info, call.Fun); co != nil {
+												if cf, isCF := co.(*types.Func); isCF && x.decls[cf] != nil {
+													initFns[cf] = true
+													add("assignCheckedFatal", "", as.Pos())
+
+													continue
+												}
+											}
+										}
+									}
+								}
+							}
+						}
+						add("bad", "globalContext.auth is assigned without the (value, err) + fatalOnError(err) pattern", as.Pos())
+					}
+				}
+
+				return true
+			})
+		}
+	}
+	// The functions whose (auth, err) result is assigned: every return.
+	for fn := range initFns {
+		fi := x.decls[fn]
+		finfo := fi.pkg.TypesInfo
+		// `if v == nil { ... return }` statements at the top level of the body
+		checked := map[types.Object]token.Pos{}
+		for _, st := range fi.decl.Body.List {
+			ifs, ok := st.(*ast.IfStmt)
+			if !ok || ifs.Init != nil || ifs.Else != nil || len(ifs.Body.List) == 0 {
+				continue
+			}
+			be, isBE := unparen(ifs.Cond).(*ast.BinaryExpr)
+			if !isBE || be.Op != token.EQL {
+				continue
+			}
+			id, isID := unparen(be.X).(*ast.Ident)
+			tv, has := finfo.Types[be.Y]
+			if !isID || !has || !tv.IsNil() {
+				continue
+			}
+			if _, endsInReturn := ifs.Body.List[len(ifs.Body.List)-1].(*ast.ReturnStmt); endsInReturn {
+				checked[finfo.ObjectOf(id)] = ifs.End()
+			}
+		}
+		ast.Inspect(fi.decl.Body, func(n ast.Node) bool {
+			if _, isLit := n.(*ast.FuncLit); isLit {
+				return false
+			}
+			ret, ok := n.(*ast.ReturnStmt)
+			if !ok {
+				return true
+			}
+			if len(ret.Results) != 2 {
+				add("bad", "return of "+fn.Name()+" without explicit results", ret.Pos())
+
+				return true
+			}
+			if tv, has := finfo.Types[ret.Results[0]]; has && tv.IsNil() {
+				if x.nonNilError(fi.pkg, ret.Results[1]) {
+					add("returnNilWithError", "", ret.Pos())
+				} else {
+					add("bad", "returns a nil auth module with an error that may be nil: "+exprString(x.fset, ret.Results[1]), ret.Pos())
+				}
+
+				return true
+			}
+			if id, isID := unparen(ret.Results[0]).(*ast.Ident); isID {
+				if p, isChecked := checked[finfo.ObjectOf(id)]; isChecked && p < ret.Pos() {
+					add("returnCheckedValue", "", ret.Pos())
+
+					return true
+				}
+			}
+			add("bad", "returns an auth module that was not checked for nil", ret.Pos())
+
+			return true
+		})
+	}
+	sort.SliceStable(facts, func(i, j int) bool {
+		if facts[i].File != facts[j].File {
+			return facts[i].File < facts[j].File
+		}
+
+		return facts[i].Line < facts[j].Line
+	})
+
+	return facts
+}
+
 // gateRoots are the functions of internal/home that stand between the mux and a
 // registered handler: the wrappers and the registrar.
 var gateRoots = []string{
@@ -901,7 +1381,7 @@ var gateRoots = []string{
 // the body of a function on the gate path, transitively through module
 // functions: what the Lean model has to account for.  A new helper on that path
 // (or a new library call in one of its functions) shows up here.
-func (x *extractor) gateCallees() (names []string, sites map[string]string) {
+func (x *extractor) gateCallees() (names []string, sites map[string]string, gateFns []*types.Func) {
 	home := x.pkgs[homePath]
 	seen := map[*types.Func]bool{}
 	sites = map[string]string{}
@@ -969,8 +1449,116 @@ func (x *extractor) gateCallees() (names []string, sites map[string]string) {
 		names = append(names, n)
 	}
 	sort.Strings(names)
+	for fn := range seen {
+		gateFns = append(gateFns, fn)
+	}
 
-	return names, sites
+	return names, sites, gateFns
+}
+
+// gateUseFacts pins how the gate uses findUser: every call on the gate path must
+// be `_, v = findUser(...)` (the returned user is discarded) and v must not be
+// assigned anywhere else in that function.
+func (x *extractor) gateUseFacts(gateFns []*types.Func) (facts []authFact) {
+	const findUser = "(*" + homePath + ".Auth).findUser"
+	for _, fn := range gateFns {
+		fi := x.decls[fn]
+		if fi == nil || fi.decl.Body == nil || fn.FullName() == findUser {
+			continue
+		}
+		info := fi.pkg.TypesInfo
+		isFindUser := func(e ast.Expr) bool {
+			call, ok := unparen(e).(*ast.CallExpr)
+			if !ok {
+				return false
+			}
+			o, _ := calleeObj(info, call.Fun)
+			f, isFn := o.(*types.Func)
+
+			return isFn && f.FullName() == findUser
+		}
+		// Every call, with the statement it stands in.
+		handled := map[*ast.CallExpr]bool{}
+		ast.Inspect(fi.decl.Body, func(n ast.Node) bool {
+			as, ok := n.(*ast.AssignStmt)
+			if !ok || len(as.Rhs) != 1 || !isFindUser(as.Rhs[0]) {
+				return true
+			}
+			handled[unparen(as.Rhs[0]).(*ast.CallExpr)] = true
+			f, l := x.pos(as.Pos())
+			bad := func(why string) {
+				facts = append(facts, authFact{Kind: "bad", Why: why, File: f, Line: l})
+			}
+			if len(as.Lhs) != 2 {
+				bad("findUser result not destructured")
+
+				return true
+			}
+			if id, isID := as.Lhs[0].(*ast.Ident); !isID || id.Name != "_" {
+				bad("the gate keeps the user returned by findUser: " + exprString(x.fset, as.Lhs[0]))
+
+				return true
+			}
+			vid, isID := as.Lhs[1].(*ast.Ident)
+			if !isID || vid.Name == "_" {
+				bad("the gate discards findUser's verdict")
+
+				return true
+			}
+			vobj := info.ObjectOf(vid)
+			others := 0
+			ast.Inspect(fi.decl.Body, func(m ast.Node) bool {
+				switch v := m.(type) {
+				case *ast.AssignStmt:
+					if v == as {
+						return true
+					}
+					for _, lhs := range v.Lhs {
+						if id := rootIdent(lhs); id != nil && info.ObjectOf(id) == vobj {
+							others++
+						}
+					}
+				case *ast.IncDecStmt:
+					if id := rootIdent(v.X); id != nil && info.ObjectOf(id) == vobj {
+						others++
+					}
+				case *ast.UnaryExpr:
+					if v.Op == token.AND {
+						if id := rootIdent(v.X); id != nil && info.ObjectOf(id) == vobj {
+							others++
+						}
+					}
+				}
+
+				return true
+			})
+			if others != 0 {
+				bad("findUser's verdict " + vid.Name + " is overwritten in " + fn.Name())
+
+				return true
+			}
+			facts = append(facts, authFact{Kind: "findUserVerdictOnly", File: f, Line: l})
+
+			return true
+		})
+		ast.Inspect(fi.decl.Body, func(n ast.Node) bool {
+			if call, ok := n.(*ast.CallExpr); ok && isFindUser(call) && !handled[call] {
+				f, l := x.pos(call.Pos())
+				facts = append(facts, authFact{Kind: "bad", Why: "findUser used outside a plain `_, ok =` assignment", File: f, Line: l})
+			}
+
+			return true
+		})
+	}
+	sort.SliceStable(facts, func(i, j int) bool {
+		if facts[i].File != facts[j].File {
+			return facts[i].File < facts[j].File
+		}
+
+		return facts[i].Line < facts[j].Line
+	})
+
+	return facts
 }
 
 func bytesLit(s string) string {
@@ -1148,7 +1736,7 @@ func main() {
 			x.fail(pc.call.Pos(), "call through a RegisterFunc value, but no function flows into any RegisterFunc location")
 		}
 		for _, src := range x.sources {
-			x.instantiate(src, pc.pkg, pc.call, pc.env, pc.call, pc.pkg, 0)
+			x.instantiate(src, pc.pkg, pc.call, pc.env, pc.site, pc.pkg, 0)
 		}
 	}
 	for fn, p := range x.tmplFns {
@@ -1225,12 +1813,30 @@ func main() {
 		}
 		sb.WriteString("\n")
 	}
-	gateNames, gateSites := x.gateCallees()
+	gateNames, gateSites, gateFns := x.gateCallees()
 	sb.WriteString("]\n\n/-- every function named on the path from the mux to a registered handler -/\n")
 	sb.WriteString("def gateCallees : List Bytes := [\n")
 	for i, n := range gateNames {
 		fmt.Fprintf(&sb, "  -- %s  (%s)\n  %s", n, gateSites[n], bytesLit(n))
 		if i != len(gateNames)-1 {
+			sb.WriteString(",")
+		}
+		sb.WriteString("\n")
+	}
+	aFacts := x.authFacts()
+	sb.WriteString("]\n\n/-- how globalContext.auth gets its value -/\ndef authFacts : List AuthFact := [\n")
+	for i, f := range aFacts {
+		fmt.Fprintf(&sb, "  -- %d: %s:%d %s\n  { kind := .%s, site := %d }", i, f.File, f.Line, f.Why, f.Kind, i)
+		if i != len(aFacts)-1 {
+			sb.WriteString(",")
+		}
+		sb.WriteString("\n")
+	}
+	uFacts := x.gateUseFacts(gateFns)
+	sb.WriteString("]\n\n/-- how the gate uses findUser -/\ndef gateUseFacts : List AuthFact := [\n")
+	for i, f := range uFacts {
+		fmt.Fprintf(&sb, "  -- %d: %s:%d %s\n  { kind := .%s, site := %d }", i, f.File, f.Line, f.Why, f.Kind, i)
+		if i != len(uFacts)-1 {
 			sb.WriteString(",")
 		}
 		sb.WriteString("\n")
@@ -1265,19 +1871,23 @@ func main() {
 	sort.Strings(x.outside)
 	facts := map[string]any{
 		"summary": map[string]any{
-			"routes":                    len(routes),
-			"gate_path_callees":         len(gateNames),
-			"routes_direct_on_mux":      direct,
-			"routes_via_registrar":      viaReg,
-			"routes_by_package":         byPkg,
-			"registerfunc_flows":        flowKinds,
-			"registrar_sources":         srcNames,
-			"admin_mux_uses":            muxKinds,
-			"module_packages":           len(x.pkgs),
-			"program_packages_scanned":  nProg,
-			"sites_outside_the_program": len(x.outside),
+			"routes":                     len(routes),
+			"gate_path_callees":          len(gateNames),
+			"routes_from_literal_tables": x.tableRows,
+			"routes_with_unknown_guard":  x.unknownRoutes,
+			"routes_direct_on_mux":       direct,
+			"routes_via_registrar":       viaReg,
+			"routes_by_package":          byPkg,
+			"registerfunc_flows":         flowKinds,
+			"registrar_sources":          srcNames,
+			"admin_mux_uses":             muxKinds,
+			"module_packages":            len(x.pkgs),
+			"program_packages_scanned":   nProg,
+			"sites_outside_the_program":  len(x.outside),
 		},
 		"gate_callees":        gateNames,
+		"auth_facts":          aFacts,
+		"gate_use_facts":      uFacts,
 		"routes":              routes,
 		"flows":               x.flows,
 		"mux_uses":            x.muxUses,
